@@ -75,6 +75,16 @@ def derive_ops(img_bytes):
     if ffrag2 is not ffrag:
         ops.append("read %d 0 10" % ffrag2["ref"])
         ops.append("frag %d" % ffrag2["ref"])
+    # directory reader created with DOT_ENTRIES: its inode-number cache is fed by every get_inode, '.' and '..' are answered from it
+    ops.append("inodedot %d" % ((((refs[len(refs) // 2] >> 16) << 16) | 8190)))      # bogus reference (middle of some inode)
+    ops.append("inodedot %d" % t[dirs[0]]["ref"])
+    ops.append("readdirdot %d" % t[dirs[0]]["ref"])
+    ops.append("readdirdot %d" % t[os.path.dirname(deep)]["ref"])
+    # the xattr reader's low-level API with interleaved descriptor lookups (valid set, out-of-range set)
+    ops.append("xwalk 0 4294967295")
+    ops.append("xwalk 0 1")
+    ops.append("xwalk 1 0")
+    ops.append("xwalk 1 4000")
     ops.append("xattr 0")
     ops.append("xattr 1")
     ops.append("xattr 4000")
